@@ -238,6 +238,31 @@ def nested_programs(seed, reps):
 # layout
 # ---------------------------------------------------------------------------------------------
 
+TERMINATORS = ("endswitch", "endwhen", "when", "endif", "elseif", "else", "endloop", "until", "endfor", "endwhile", "endrecord",
+               "endproc", "endfunc", "end")
+
+
+def comment_terminators(rng, text, prob):
+    """a comment line in front of block terminators (every one when prob = 1): comments are layout, and the
+    terminators are found by parsers that must skip them"""
+    nl = "\r\n" if "\r\n" in text else "\n"
+    out = []
+    for ln in text.split(nl):
+        w = ln.strip().split(" ")[0].lower() if ln.strip() else ""
+        if w in TERMINATORS and rng.random() < prob:
+            out.append(ln[:len(ln) - len(ln.lstrip(" \t"))] + ";" + rng.choice(["c", "note", "", "end", "x = 1"]))
+        out.append(ln)
+    return nl.join(out)
+
+
+SWITCH_COMMENT_CASES = [
+    "proc P\n switch x\n  when 1\n   a = 1\n  endwhen\n  ;c\n endswitch\nendproc\n",
+    "proc P\n switch x\n  when 1\n   a = 1\n  endwhen\n  ;c\n else\n   b = 2\n  ;d\n endswitch\nendproc\n",
+    "proc P\n switch x\n  ;c\n endswitch\nendproc\n",
+    "proc P\n switch x\n  ;c\n  when 1, 2\n  ;d\n  endwhen\n  ;e\n  when 3 to 4\n  endwhen\n ;f\n endswitch\n ;g\nendproc\n",
+]
+
+
 def relayout(rng, text):
     """random indentation, trailing blanks, blank lines and line terminators; tokens and their order are
     untouched (string literals may contain blanks, so only line ends are changed)"""
@@ -401,3 +426,35 @@ def innermost_violations(root, ident_idx):
                 bad.append((n[1], n[3]["range"], p, got[0], got[1], got[3]["range"]))
                 break
     return bad
+
+
+# ---------------------------------------------------------------------------------------------
+# position lookup through the real search_encasing_node (engine `encase`)
+# ---------------------------------------------------------------------------------------------
+
+def token_nodes(root):
+    """every node that carries its own token (key 0: AstTerminal / AstTypeBasic / AstTypeSized) or a name token
+    (key 1: declarations, parameters, record fields, enum variants, for counters, ...): at any position of that
+    token the innermost node is that node -- identifiers in bodies as well as parameter names and types of
+    procedures AND functions, return types, field / record-field / local types"""
+    out = []
+
+    def walk(n):
+        for (k, ty, raw, s, e, val) in tokens_of_attrs(n[3]["attrs"]):
+            if k in (0, 1):
+                out.append((n, s, e))
+                break
+        for c in n[2]:
+            walk(c)
+    walk(root)
+    return out
+
+
+def lookup_queries(root):
+    """[(position, expected node)]: start, middle and end of every such token"""
+    qs = []
+    for (n, s, e) in token_nodes(root):
+        mid = (s[0], (s[1] + e[1]) // 2) if s[0] == e[0] else s
+        for p in dict.fromkeys((s, mid, e)):
+            qs.append((p, n))
+    return qs
